@@ -1566,6 +1566,9 @@ pub fn step<const N: usize, P: Pad>(
                     if matches!(op, Op::ToVec | Op::CloneBuf) {
                         ctx.violation("C12", sig(op, N, lay, "wrong_return"), format!("{:?}: {}; case={}", op, e, ctx.cur_case));
                     }
+                    if matches!(op, Op::DebugFmt(_) | Op::HashSelf | Op::EqSelf | Op::CmpSelf) {
+                        ctx.violation("C13", sig(op, N, lay, "wrong_return"), format!("{:?}: {}; case={}", op, e, ctx.cur_case));
+                    }
                 }
             }
             // contents
